@@ -617,19 +617,28 @@ class P(Property):
             '(bit flip, insert, delete, truncate, frame duplicate/swap/drop, foreign/forbidden/short/long fixed-field frames, length varints '
             'from {0, L-1, L+1, 2^14.., 2^30.., 2^32-1, 2^32, 2^62-1} in every varint form, hostile QPACK field sections, non-minimal varints, '
             'random tails) with and without a fault; random byte streams on control / QPACK / unknown / request streams; 24576..40000 field lines; '
+            'VALID Huffman literals (every decoded length 1..64, every padding length 0..7, 5..30 bit codes, as name and value, over-long / zero padding); '
+            'back-pressure (write budgets 0,1,2,3,7,63 and stream credits 0..3 withheld, granted piecemeal by W<id>:<k> / G / H, faults while a write is pending; '
+            'send calls wait on peer credit and must end on STOP_SENDING or connection loss); STOP_SENDING / RESET on the streams h3 itself opened; application calls '
+            'send_trailers, stop_sending, stop_stream, shutdown(n) then accept(), split(), SendRequest drop; a WebTransport session whose uni / bidi streams are read '
+            'through both AsyncRead impls with buffer sizes {1,2,c-1,c,c+1}; every error is also rendered with Display / is_h3_no_error / source() inside the case; '
             'oracle: no panic, no process crash, no executor livelock, no call pending at quiescence once its stream was FINed/RESET or the '
             'connection was lost, no call that completes only after a forced re-poll at quiescence (lost wake-up), nothing pending after the final '
             'connection close, errors are proper (scope:code:variant, and no self-declared H3_INTERNAL_ERROR unless the transport reported an internal error). '
             'non-trivial = distinct cases in which a decoder below the frame layer was reached (a resolve_request / recv_response / '
             'recv_trailers call completed, or the control stream produced a connection error) or a fault was injected before the last step')
-    partial_note = ('C06 is partial: theorems cover the component models (varint, datagram header, prefixed integers, Huffman, string literals, '
-                    'stateless QPACK, SETTINGS, Header/Request/Response/trailers construction, Frame::decode, buf.rs Cursor, FrameStream, '
-                    'AcceptRecvStream header reader, and their one-frame composition; progress for FrameStream, the header reader, the '
-                    'connection-error wake-up and single faulted requests).  NOT covered by a theorem, only by the reviewed panic-site inventory '
-                    'and the adversarial search: the glue of connection.rs (RequestStream poll_recv_data / poll_recv_trailers state, '
-                    'ConnectionInner poll_control / poll_accept_recv / grease), server accept loop and client recv_response call order, '
-                    'WebTransport session paths, tokio mpsc, AsyncRead impls.  Panics inside dependencies (http, bytes), allocation failure and '
-                    'stack depth are out of scope')
+    partial_note = ('C06 is partial.  Theorems are about hand-written component MODELS (varint, datagram header, prefixed integers, Huffman, string '
+                    'literals, stateless QPACK, SETTINGS, Header/Request/Response/trailers construction, Frame::decode, buf.rs Cursor, FrameStream under the '
+                    'call contract "poll_data while a DATA payload is owed" (no CallNext), the AcceptRecvStream header reader, the one-frame composition; '
+                    'progress for FrameStream, the header reader, the connection-error wake-up and single faulted requests (C07)).  There is NO theorem for: '
+                    'stream openings / STOP_SENDING / connection close orderings at connection level, arithmetic overflow outside the modelled functions, the '
+                    'send side (WriteBuf under partial acceptance is C14), resolve_request / recv_response / recv_data / recv_trailers / accept / poll_close as '
+                    'whole calls, the glue of connection.rs (RequestStream state, ConnectionInner poll_control / poll_accept_recv / grease), the server accept loop, '
+                    'h3-webtransport and the AsyncRead impls, tokio mpsc.  Those are covered by (a) the panic-site inventory over h3/src receive-path files, '
+                    'error/*.rs, quic.rs, config.rs, ext.rs and h3-webtransport/src, whose rows AND owning-function fingerprints are reviewed by hand, and (b) the '
+                    'adversarial search (incl. a WebTransport session read through both AsyncRead impls, back-pressure, faults on own streams).  The application '
+                    'follows the documented drain pattern; calling recv_trailers while DATA payload is still owed is a documented-contract violation that panics '
+                    '(notes/C06_findings.md H2).  Panics inside dependencies (http, bytes), allocation failure and stack depth are out of scope')
     trusted_extra = ['Spec/PanicReview.v is a hand-reviewed classification of the generated panic-site inventory (corpus/C06/panic_sites_reviewed.json)',
                      'SimQuic upholds the transport contract (no empty chunks, sticky FIN/RESET); STOP_SENDING is modelled as "the next write fails"',
                      'liveness is observed as "pending at executor quiescence"; the real tokio scheduler is not run']
@@ -805,9 +814,14 @@ class P(Property):
             new = [r for r in f['rows'] if tuple(r) not in have]
         except Exception as ex:  # the Coq obligation is the judge; this is only reporting
             return [('inventory', {'error': 'panic-site scan failed: %s' % ex})]
+        hp = {(q['file'], q['fn']): q['print'] for q in json.load(open(os.path.join(ROOT, 'corpus', 'C06', 'panic_sites_reviewed.json'))).get('functions', [])}
+        changed = ['%s:%s %s' % (a, f['print_lines'][a + '|' + b], b) for (a, b, c) in f['prints'] if hp.get((a, b)) != c]
+        if changed and not new:
+            return [('inventory', {'changed_owner_functions': changed[:20],
+                                   'explanation': 'function(s) owning reviewed panic-site rows were edited (operator / argument / guard): the reviewed verdicts no longer apply to this text'})]
         if new:
             rows = ['%s:%s %s %s #%d' % (r[0], f['lines']['|'.join([r[0], r[1], r[2], str(r[3])])], r[1], r[2], r[3]) for r in new[:20]]
-            return [('inventory', {'unreviewed_panic_sites': rows,
+            return [('inventory', {'unreviewed_panic_sites': rows, 'changed_owner_functions': changed[:20],
                                    'explanation': 'new or moved panic-capable construct(s) on the receive path without a reviewed classification'})]
         return []
 
